@@ -261,6 +261,14 @@ func concurrent(e *env, prop string, mode int) {
 				w.Fail(rig.GoFailure{Kind: "counterexample", What: "a key lock is still held after all connections finished", Input: pp, Detail: fmt.Sprint(rg.LocksHeld())})
 			}
 			for ti, th := range rg.Threads {
+				if !th.Closed() {
+					what := "the server loop of a connection ended without closing the connection and its handlers"
+					if th.Failed() {
+						what = "a failure underneath a command ended the server loop without closing the connection and its handlers"
+					}
+					w.Fail(rig.GoFailure{Kind: "counterexample", What: what, Input: pp,
+						Detail: fmt.Sprintf("thread %d: failed=%v at request %d, %d requests parsed", ti, th.Failed(), th.FailedAtReq, th.Parsed())})
+				}
 				if th.Failed() && th.Parsed() != th.FailedAtReq {
 					w.Fail(rig.GoFailure{Kind: "counterexample", What: "a panic underneath a command did not close the connection: the server loop went on to parse further requests",
 						Input: pp, Detail: fmt.Sprintf("thread %d: panic during request %d, %d requests parsed in the end", ti, th.FailedAtReq, th.Parsed()),
